@@ -23,20 +23,20 @@ import (
 // mis-declared stream.
 
 type c17Case struct {
-	Gen   string `json:"gen"` // fn | codec
-	Enc   string `json:"enc"`
-	W     int    `json:"w"`
-	H     int    `json:"h"`
-	C     int    `json:"c"`
-	P     int    `json:"p"`
-	Par   int    `json:"par"` // quality / NEAR / predictor / levels
-	CB    int    `json:"cb,omitempty"`
-	Len   string `json:"len"` // buffer length class: 0,1,row-1,row,need-1,need,need+1
+	Gen string `json:"gen"` // fn | codec
+	Enc string `json:"enc"`
+	W   int    `json:"w"`
+	H   int    `json:"h"`
+	C   int    `json:"c"`
+	P   int    `json:"p"`
+	Par int    `json:"par"` // quality / NEAR / predictor / levels
+	CB  int    `json:"cb,omitempty"`
+	Len string `json:"len"` // buffer length class: 0,1,row-1,row,need-1,need,need+1
 	// codec level
 	TS     string `json:"ts,omitempty"`
 	BA     int    `json:"ba,omitempty"`
 	BS     int    `json:"bs,omitempty"`
-	PKind  string `json:"pkind,omitempty"` // nil | default | generic-garbage | foreign
+	PKind  string `json:"pkind,omitempty"`  // nil | default | generic-garbage | foreign
 	Frames string `json:"frames,omitempty"` // ok | zero | empty | short | nilpd | nilinfo
 }
 
